@@ -63,7 +63,8 @@ theorem getAliasSource_alias {ctx : Ctx} {g : Graph} (h : Inv ctx g) {n : Nat} {
     rw [hek] at hkk
     simp only at hkk
     have : nd.isDef = false := by simp [Node.isDef, hk]
-    rw [this] at hkk; exact absurd hkk.2 (by simp)
+    have hdd := (dep_isDef hkk).2
+    rw [this] at hdd; cases hdd
 
 /-- the walk of `get_instantiation_arguments` over argument edges with in-range indices -/
 theorem argsGo_ok (d : PkgDef) : ∀ (es : List Edge),
